@@ -137,9 +137,14 @@ def run(ctx, monitors):
     if c12:
         gen.append(lambda: _simulate(ctx, "Sim_SyncServe_q100.cfg", "q100-bolt", 2 if q else 6, 3000))
 
+    prior_exhaustive = ctx.exhaustive
+    complete = []
+
     def do_mc(job):
         cfg, expect = job
         r = ctx.model_check("SyncServe", cfg, expect_ok=expect, workers=4)
+        if expect:
+            complete.append(bool(r.finished))
         if not expect:
             ctx.notes.append("design model %s: %s" % (cfg, ("%s violated (model counterexample, depth %s)" % (r.violated, r.depth))
                                                       if r.violated else "monitor holds"))
@@ -149,6 +154,9 @@ def run(ctx, monitors):
         scripts = []
         for f in futs:
             scripts += f.result()
+    # the monitor configs stop at their first (expected) counterexample; "exhaustive" refers to the
+    # configs of the complete state graph and to the behaviour enumerations
+    ctx.exhaustive = prior_exhaustive and all(complete) and not any("enumeration" in m for m in ctx.inconclusive)
     if c11 and not q:
         scripts += [dict(s, backend="boltu", name=s["name"].replace("all-bolt", "all-boltu"))
                     for s in scripts if s["name"].startswith("all-bolt-")]
